@@ -282,6 +282,12 @@ func typeByte(t string) byte {
 		return '2'
 	case "hardlink":
 		return '1'
+	case "rega":
+		return 0 // the pre-POSIX regular file flag
+	case "cont":
+		return '7' // tar.TypeCont
+	case "vendor":
+		return 'Z' // an unknown vendor flag: the body is handed out like a file's
 	}
 	return '0'
 }
@@ -303,6 +309,9 @@ func fill(n int64, r *rand.Rand) []byte {
 func (s *sandbox) stream(c Case16, cc *conc16, r *rand.Rand) (raw []RawEntry, names []string) {
 	for _, e := range c.Stream {
 		re := RawEntry{Type: typeByte(e.Type), Carrier: "ustar"}
+		if e.Type == "vendor" {
+			re.Type = "ZQYW"[r.Intn(4)]
+		}
 		if len(e.Comps) == 2 && e.Comps[1] == "Chart.yaml" && e.Comps[0] == "top" {
 			re.Name = cc.fwd["top"] + "/Chart.yaml"
 			cn := make([]string, len(c.CName))
@@ -322,7 +331,7 @@ func (s *sandbox) stream(c Case16, cc *conc16, r *rand.Rand) (raw []RawEntry, na
 			re.Data = chartYAML(cname, pad)
 		} else {
 			re.Name = cc.name(e)
-			if e.Type == "reg" || e.Type == "xheader" {
+			if e.Type == "reg" || e.Type == "xheader" || e.Type == "rega" || e.Type == "cont" || e.Type == "vendor" {
 				re.Data = fill(e.Size, r)
 			}
 			if e.Type == "symlink" || e.Type == "hardlink" {
